@@ -23,18 +23,24 @@ def main():
     for f in ("patch.diff", "demo.py", "notes.md"):
         if (src / f).exists() and (src / f).resolve() != (out / f).resolve():
             shutil.copy(src / f, out / f)
-    assert sh("git -C /repo status --porcelain").stdout.strip() == "", "repo not clean"
-    env = dict(os.environ, PYTHONPATH="/repo/src", JAX_PLATFORMS="cpu")
+    # work in a scratch worktree of /repo's HEAD so that /repo itself is never touched (MDPAX_REPO redirects the harness)
+    repo = os.environ.get("SEED_REPO", "/repo")
+    if repo != "/repo":
+        sh(f"git -C /repo worktree remove --force {repo}")
+        r0 = sh(f"git -C /repo worktree add --detach {repo} HEAD")
+        assert r0.returncode == 0, r0.stderr
+    assert sh(f"git -C {repo} status --porcelain").stdout.strip() == "", "repo not clean"
+    env = dict(os.environ, PYTHONPATH=f"{repo}/src", JAX_PLATFORMS="cpu", MDPAX_REPO=repo)
     env.pop("MDPAX_VERIF", None)
     meta = {"id": sid, "breaks": props[0], "checks_run": {}, "at": time.strftime("%Y-%m-%d %H:%M:%S")}
-    r = sh(f"git -C /repo apply {out / 'patch.diff'}")
+    r = sh(f"git -C {repo} apply {out / 'patch.diff'}")
     assert r.returncode == 0, r.stderr
     try:
         d1 = sh(f"/venv/bin/python {out / 'demo.py'}", env=env, cwd="/tmp", timeout=1800)
         meta["demo_with_change"] = {"rc": d1.returncode, "tail": (d1.stdout + d1.stderr)[-600:]}
         for p in props:
             t0 = time.time()
-            c = sh(f"./check {p} --tier quick", cwd=V, timeout=3600)
+            c = sh(f"./check {p} --tier quick", cwd=V, timeout=3600, env=env)
             lines = [l for l in c.stdout.splitlines() if l.startswith("VIOLATION") or l.startswith(p + " ")]
             rep = None
             for l in c.stdout.splitlines():
@@ -47,7 +53,7 @@ def main():
                         pass
             meta["checks_run"][p] = {"rc": c.returncode, "lines": lines, "first_violation": rep, "wall_s": round(time.time() - t0, 1)}
     finally:
-        sh("git -C /repo checkout -- .")
+        sh(f"git -C {repo} checkout -- .")
     d2 = sh(f"/venv/bin/python {out / 'demo.py'}", env=env, cwd="/tmp", timeout=1800)
     meta["demo_without_change"] = {"rc": d2.returncode, "tail": (d2.stdout + d2.stderr)[-300:]}
     meta["confirmed"] = meta["demo_with_change"]["rc"] != 0 and d2.returncode == 0
@@ -55,6 +61,8 @@ def main():
     if (out / "notes.md").exists():
         meta["needs_to_manifest"] = "see notes.md"
     (out / "meta.json").write_text(json.dumps(meta, indent=1))
+    if repo != "/repo":
+        sh(f"git -C /repo worktree remove --force {repo}")
     print(json.dumps({k: meta[k] for k in ("id", "confirmed", "caught_by")}), {p: r["lines"][-1:] for p, r in meta["checks_run"].items()})
 
 
